@@ -1628,3 +1628,412 @@ func R58() Rule {
 		}
 	}}
 }
+
+// ---------------------------------------------------------------------------
+// R59: fold steps, dead copy loops, monotone flags
+// ---------------------------------------------------------------------------
+
+// R59 (a) the range-merge fold: the value computed by the merge step and stored into the
+// accumulator slot (`srs[last] = merged`, or an accumulator variable) is computed *from* that
+// slot — a step that merges the current range with some other element (its input neighbour)
+// and then overwrites the accumulator loses what the accumulator had absorbed: rows of a
+// swallowed range are scanned twice / dropped.  (b) a `for … range m` over a map that the
+// same function has just made and not filled is a dead loop (the classic "copied from the
+// wrong map" slip: the destination keeps none of the source's entries).  (c) a boolean that
+// is set inside a loop and consulted after it ("did anything change → write back") is
+// monotone: once true it stays true; an assignment that ignores the previous value makes the
+// decision depend on the last element only.
+func R59() Rule {
+	return Rule{Name: "R59", Run: func(c *core.Ctx) {
+		P := c.P
+		// (a)
+		if P.SPkgs[core.PkgBttest] != nil {
+			if fn := P.Func(core.PkgBttest, "mergeSimpleRanges"); fn != nil && fn.Blocks != nil {
+				c.Fn("mergeSimpleRanges")
+				n := 0
+				for _, sf := range P.Scope(fn, func(f *ssa.Function) bool { return core.PkgPathOf(f) != core.PkgBttest }) {
+					for _, b := range sf.Blocks {
+						for _, in := range b.Instrs {
+							st, ok := in.(*ssa.Store)
+							if !ok || !core.TypeIs(st.Val.Type(), core.PkgBttest, "simpleRange") {
+								continue
+							}
+							// the stored value is (the first result of) a call with ≥ 2 range arguments: a fold step
+							var call *ssa.Call
+							switch x := core.Strip(st.Val).(type) {
+							case *ssa.Extract:
+								call, _ = x.Tuple.(*ssa.Call)
+							case *ssa.Call:
+								call = x
+							}
+							if call == nil {
+								continue
+							}
+							var rangeArgs []ssa.Value
+							for _, a := range call.Call.Args {
+								if core.TypeIs(a.Type(), core.PkgBttest, "simpleRange") {
+									rangeArgs = append(rangeArgs, a)
+								}
+							}
+							if len(rangeArgs) < 2 {
+								continue
+							}
+							n++
+							fromSlot := false
+							for _, a := range rangeArgs {
+								if ld, isLd := core.Strip(a).(*ssa.UnOp); isLd && ld.Op == token.MUL && sameSlot(ld.X, st.Addr) {
+									fromSlot = true
+								}
+							}
+							c.Check(fromSlot, "R59", fmt.Sprintf("a/%s/fold-step-reads-its-accumulator#%d", core.FuncName(sf), n), st.Pos(), "the merged range stored into the accumulator slot is computed from that slot", "the merge step stores its result into the accumulator slot but was not computed from it (it merges the current range with another element): what the accumulator had absorbed is lost — a range swallowed by a wider one becomes the comparison base, rows are returned twice and out of order or dropped")
+						}
+					}
+				}
+				if n == 0 {
+					c.Infof("R59", "a/fold-steps", fn.Pos(), "no fold step of the form slot = merge(…) in mergeSimpleRanges")
+				}
+			}
+		}
+		// (d) SampleRowKeys: what the scan leaves behind for the trailing response is decided per row
+		if P.SPkgs[core.PkgBttest] != nil {
+			if fn := P.Func(core.PkgBttest, "(*server).SampleRowKeys"); fn != nil && fn.Blocks != nil {
+				c.Fn("(*server).SampleRowKeys")
+				nVars := 0
+				for _, cb := range P.Scope(fn, func(f *ssa.Function) bool { return core.PkgPathOf(f) != core.PkgBttest }) {
+					if _, isCb := isAscendCallback(cb); !isCb || len(cb.Params) == 0 {
+						continue
+					}
+					elem := cb.Params[len(cb.Params)-1]
+					// captured variables assigned from the element in the callback and read outside it
+					byCell := map[*ssa.Alloc][]*ssa.Store{}
+					for _, b := range cb.Blocks {
+						for _, in := range b.Instrs {
+							if st, ok := in.(*ssa.Store); ok {
+								if cell := core.CellOf(st.Addr); cell != nil && cell.Parent() != cb {
+									byCell[cell] = append(byCell[cell], st)
+								}
+							}
+						}
+					}
+					for cell, sts := range byCell {
+						fromElem := false
+						for _, st := range sts {
+							if core.Resolve(st.Val) == ssa.Value(elem) {
+								fromElem = true
+							}
+						}
+						readOutside := false
+						for _, r := range core.Referrers(cell) {
+							if ld, isLd := r.(*ssa.UnOp); isLd && ld.Op == token.MUL && ld.Parent() != cb {
+								readOutside = true
+							}
+						}
+						if !fromElem || !readOutside {
+							continue
+						}
+						nVars++
+						// every continuing path of the callback assigns the variable
+						assigns := map[*ssa.BasicBlock]bool{}
+						for _, st := range sts {
+							assigns[st.Block()] = true
+						}
+						var bad *ssa.Return
+						for _, ret := range returnsIn(cb) {
+							if bv, isB := core.ConstBool(ret.Results[0]); isB && !bv {
+								continue
+							}
+							// reachable from entry without passing an assigning block?
+							seen := map[*ssa.BasicBlock]bool{}
+							var reach func(b *ssa.BasicBlock) bool
+							reach = func(b *ssa.BasicBlock) bool {
+								if seen[b] || assigns[b] {
+									return false
+								}
+								seen[b] = true
+								if b == ret.Block() {
+									return true
+								}
+								for _, s := range b.Succs {
+									if reach(s) {
+										return true
+									}
+								}
+								return false
+							}
+							if reach(cb.Blocks[0]) {
+								bad = ret
+							}
+						}
+						// … and a row whose key this invocation has already sent is not remembered for the trailing response
+						for _, st := range sts {
+							if core.Resolve(st.Val) != ssa.Value(elem) {
+								continue
+							}
+							for _, ci := range core.AllCalls(cb) {
+								if ci.Method != nil && ci.Method.Name() == "Send" && core.InstrReaches(ci.Instr, st) {
+									c.Bad("R59", fmt.Sprintf("d/%s/%s-not-a-row-already-sent", core.FuncName(cb), cell.Comment), st.Pos(), "a row whose key was just sent is remembered in %q for the trailing response: when the sampler picks the table's final row its key is sent twice", cell.Comment)
+								}
+							}
+						}
+						construct := fmt.Sprintf("d/%s/%s-decided-for-every-row", core.FuncName(cb), cell.Comment)
+						if bad != nil {
+							c.Bad("R59", construct, bad.Pos(), "the scan callback remembers a row in %q for the response sent after the scan, but a continuing path leaves it as an earlier row set it: a row that was already sent (or an older one) is reported again as the table's last key, out of order and with a wrong offset", cell.Comment)
+						} else {
+							c.Ok("R59", construct, cb.Pos(), true, "every continuing path of the callback assigns the variable")
+						}
+					}
+				}
+				if nVars == 0 {
+					c.Infof("R59", "d/trailing-row", fn.Pos(), "the scan callback keeps no row for a trailing response")
+				}
+			}
+		}
+		// (b) and (c), every package
+		nRange, nFlag, nBadB, nBadC := 0, 0, 0, 0
+		for _, pkg := range []string{core.PkgBttest, core.PkgGcsemu, core.PkgGcsutil} {
+			if P.SPkgs[pkg] == nil {
+				continue
+			}
+			for _, fn := range P.SrcFuncs(pkg) {
+				for _, b := range fn.Blocks {
+					for _, in := range b.Instrs {
+						rg, ok := in.(*ssa.Range)
+						if !ok {
+							continue
+						}
+						if _, isMap := rg.X.Type().Underlying().(*types.Map); !isMap {
+							continue
+						}
+						nRange++
+						mm, filled := freshEmptyMap(rg)
+						if mm == nil || filled {
+							continue
+						}
+						nBadB++
+						c.Bad("R59", fmt.Sprintf("b/%s/range-over-just-made-map#%d", core.FuncName(fn), nBadB), rg.Pos(), "this loop ranges over a map that was made at %s and has not been given any entry: the body never runs (copying from the destination instead of the source: the copy keeps none of the entries)", P.Pos(mm.Pos()))
+					}
+				}
+				// (c)
+				for _, hb := range fn.Blocks {
+					loop := loopOf(hb)
+					if loop == nil || !loopHeader(hb) {
+						continue
+					}
+					for _, in := range hb.Instrs {
+						phi, ok := in.(*ssa.Phi)
+						if !ok {
+							break
+						}
+						if !isBoolType(phi.Type()) {
+							continue
+						}
+						if bad := nonMonotoneFlag(phi, hb, loop); bad != nil {
+							nBadC++
+							c.Bad("R59", fmt.Sprintf("c/%s/flag-overwritten-in-loop#%d", core.FuncName(fn), nBadC), bad.Pos(), "a boolean consulted after the loop is assigned inside it without regard to its previous value: only the last element decides (an earlier element's 'changed' is forgotten and its update is not written back)")
+						} else {
+							nFlag++
+						}
+					}
+				}
+			}
+		}
+		if nBadB == 0 {
+			c.Ok("R59", "b/no-range-over-just-made-map", token.NoPos, true, "%d map range loops inspected", nRange)
+		}
+		if nBadC == 0 {
+			c.Ok("R59", "c/loop-flags-are-monotone", token.NoPos, true, "%d boolean loop-carried variables inspected", nFlag)
+		}
+	}}
+}
+
+// sameSlot: two addresses denote the same variable or the same element of the same slice
+// (same index value, same slice value or two loads of the same slice variable).
+func sameSlot(a, b ssa.Value) bool {
+	if a == b || core.SameValue(a, b) {
+		return true
+	}
+	ia, okA := a.(*ssa.IndexAddr)
+	ib, okB := b.(*ssa.IndexAddr)
+	if !okA || !okB || core.Strip(ia.Index) != core.Strip(ib.Index) {
+		return false
+	}
+	return ia.X == ib.X || core.SameValue(ia.X, ib.X) || core.SameCellLoad(ia.X, ib.X)
+}
+
+// freshEmptyMap: the map ranged over is a make(map…) of the same function, reached through
+// a local variable or a field of a local struct; filled reports whether any update of that
+// map can happen before the range.
+func freshEmptyMap(rg *ssa.Range) (mm *ssa.MakeMap, filled bool) {
+	fn := rg.Parent()
+	v := core.Strip(rg.X)
+	var addr ssa.Value
+	if m, ok := core.Resolve(v).(*ssa.MakeMap); ok {
+		mm = m
+	} else if ld, ok := v.(*ssa.UnOp); ok && ld.Op == token.MUL {
+		addr = ld.X
+		// the closest dominating store to the same place
+		var best *ssa.Store
+		for _, b := range fn.Blocks {
+			for _, in := range b.Instrs {
+				st, isSt := in.(*ssa.Store)
+				if !isSt || !core.SameValue(st.Addr, addr) || !core.InstrDominates(st, rg) {
+					continue
+				}
+				if best == nil || core.InstrDominates(best, st) {
+					best = st
+				}
+			}
+		}
+		if best == nil {
+			return nil, false
+		}
+		// no other store to the place may lie between
+		for _, b := range fn.Blocks {
+			for _, in := range b.Instrs {
+				st, isSt := in.(*ssa.Store)
+				if isSt && st != best && core.SameValue(st.Addr, addr) && core.InstrReaches(best, st) && core.InstrReaches(st, rg) {
+					return nil, false
+				}
+			}
+		}
+		m, isMM := core.Resolve(best.Val).(*ssa.MakeMap)
+		if !isMM {
+			return nil, false
+		}
+		mm = m
+	}
+	if mm == nil || mm.Parent() != fn {
+		return nil, false
+	}
+	for _, b := range fn.Blocks {
+		for _, in := range b.Instrs {
+			switch x := in.(type) {
+			case *ssa.MapUpdate:
+				same := core.Resolve(x.Map) == ssa.Value(mm)
+				if ld, isLd := core.Strip(x.Map).(*ssa.UnOp); isLd && addr != nil && core.SameValue(ld.X, addr) {
+					same = true
+				}
+				if same && core.InstrReaches(x, rg) {
+					return mm, true
+				}
+			case ssa.CallInstruction:
+				// handed to anything before the range: it may have been filled there
+				for _, a := range x.Common().Args {
+					if core.Resolve(a) == ssa.Value(mm) && core.InstrReaches(in, rg) {
+						return mm, true
+					}
+				}
+			}
+		}
+	}
+	return mm, false
+}
+
+// nonMonotoneFlag: phi is a boolean loop-header φ whose value is consulted after the loop and
+// whose back-edge value can be a fresh, non-constant value on a path on which the variable
+// was (possibly) already true.  Returns the offending definition.
+func nonMonotoneFlag(phi *ssa.Phi, hb *ssa.BasicBlock, loop map[*ssa.BasicBlock]bool) ssa.Instruction {
+	// the web: boolean φs inside the loop connected to phi
+	web := map[ssa.Value]bool{phi: true}
+	var back []ssa.Value
+	outside := 0
+	for i, e := range phi.Edges {
+		if loop[hb.Preds[i]] {
+			back = append(back, e)
+		} else {
+			outside++
+		}
+	}
+	if outside == 0 || len(back) == 0 {
+		return nil
+	}
+	// not the loop's own condition (for ok := it.First(); ok; ok = it.Next())
+	for _, r := range core.Referrers(phi) {
+		if ifi, isIf := r.(*ssa.If); isIf && loop[ifi.Block()] {
+			for _, s := range ifi.Block().Succs {
+				if !loop[s] {
+					return nil
+				}
+			}
+		}
+	}
+	type leaf struct {
+		v    ssa.Value
+		from *ssa.BasicBlock // block the value arrives from (edge into a φ of the web), nil = directly on the back edge
+	}
+	var leaves []leaf
+	seen := map[ssa.Value]bool{}
+	var walk func(v ssa.Value, from *ssa.BasicBlock)
+	walk = func(v ssa.Value, from *ssa.BasicBlock) {
+		if v == ssa.Value(phi) {
+			return
+		}
+		if p2, isPhi := v.(*ssa.Phi); isPhi && loop[p2.Block()] {
+			if seen[v] {
+				return
+			}
+			seen[v] = true
+			web[p2] = true
+			for i, e := range p2.Edges {
+				walk(e, p2.Block().Preds[i])
+			}
+			return
+		}
+		leaves = append(leaves, leaf{v, from})
+	}
+	for i, e := range phi.Edges {
+		if loop[hb.Preds[i]] {
+			walk(e, hb.Preds[i])
+		}
+	}
+	// consulted after the loop?
+	after := false
+	for w := range web {
+		for _, r := range core.Referrers(w) {
+			if loop[r.Block()] {
+				continue
+			}
+			switch r.(type) {
+			case *ssa.If, *ssa.Return, *ssa.Store:
+				after = true
+			case *ssa.Phi:
+				after = true
+			}
+		}
+	}
+	if !after {
+		return nil
+	}
+	for _, lf := range leaves {
+		if _, isK := core.ConstBool(lf.v); isK {
+			continue
+		}
+		// a fresh value: fine only where the variable is known to be false
+		guarded := false
+		if lf.from != nil {
+			facts := core.FactsAt(lf.from)
+			if ifi, isIf := lf.from.Instrs[len(lf.from.Instrs)-1].(*ssa.If); isIf {
+				_ = ifi
+			}
+			for _, f := range facts {
+				if web[f.Cond] && !f.Polarity {
+					guarded = true
+				}
+			}
+		}
+		// `x = x || y` computes y in a block entered on the false edge of x; `x = y || x` and
+		// `x = x | y`-style BinOps that mention the variable are monotone as well
+		if !guarded {
+			if bin, isBin := lf.v.(*ssa.BinOp); isBin && (bin.Op == token.OR || bin.Op == token.LOR) && (web[bin.X] || web[bin.Y]) {
+				guarded = true
+			}
+		}
+		if !guarded {
+			if in, isIn := lf.v.(ssa.Instruction); isIn {
+				return in
+			}
+			return phi
+		}
+	}
+	return nil
+}
